@@ -122,8 +122,9 @@ func (s *System) VerifStreamEntries() (forward map[string]int, reverse map[strin
 	return
 }
 
-// VerifRootChildren returns the paths in the root context's children table (quiescent systems only).
+// VerifRootChildren returns the paths in the root context's children table.
 func (s *System) VerifRootChildren() []string {
+	defer s.Context.lockChildren()()
 	var out []string
 	for p := range s.Context.children {
 		out = append(out, p)
